@@ -5,7 +5,7 @@ use crate::memwire::MARKER;
 use crate::sess::{self, Exchange, Sess};
 use crate::util::{clip, clip_bytes, Cfg, Prng, Report};
 use crate::xmlstrict::{self, Elem};
-use netconf::message::rpc::operation::junos::load_configuration::{Config, Json, Merge, Override, Set, Text};
+use netconf::message::rpc::operation::junos::load_configuration::{Config, Json, Merge, Override, Replace, Set, Text, Update};
 use netconf::message::rpc::operation::junos::{CommitConfiguration, LoadConfiguration, OpenConfiguration};
 use netconf::message::rpc::operation::{
     Builder, CancelCommit, Commit, CopyConfig, Datastore, DeleteConfig, EditConfig, Filter, Get, GetConfig, Opaque,
@@ -169,6 +169,32 @@ fn slots() -> Vec<Slot> {
     vec![
         Slot { name: "commit/persist", path: &["commit", "persist"], kind: Kind::Text, gen: 0, run: |s, v| {
             unit(s.exchange::<Commit, _, _>(|b| b.confirmed(true)?.persist(Some(Token::new(v)))?.finish(), none))
+        }},
+        // the same values with other (legal) parameters set alongside: a value must arrive whatever
+        // else the request carries
+        Slot { name: "commit/persist(+confirm-timeout=120s)", path: &["commit", "persist"], kind: Kind::Text, gen: 0, run: |s, v| {
+            unit(s.exchange::<Commit, _, _>(|b| b.confirmed(true)?.confirm_timeout(std::time::Duration::from_secs(120))?.persist(Some(Token::new(v)))?.finish(), none))
+        }},
+        Slot { name: "commit/persist(+confirm-timeout=600s)", path: &["commit", "persist"], kind: Kind::Text, gen: 0, run: |s, v| {
+            unit(s.exchange::<Commit, _, _>(|b| b.confirmed(true)?.persist(Some(Token::new(v)))?.confirm_timeout(std::time::Duration::from_secs(600))?.finish(), none))
+        }},
+        Slot { name: "edit-config/url(+options)", path: &["edit-config", "url"], kind: Kind::Text, gen: 1, run: |s, v| {
+            unit(s.exchange::<EditConfig<Opaque>, _, _>(|b| b.target(Datastore::Candidate)?.error_option(netconf::message::rpc::operation::edit_config::ErrorOption::RollbackOnError)?.test_option(netconf::message::rpc::operation::edit_config::TestOption::TestOnly)?.url(v)?.finish(), none))
+        }},
+        Slot { name: "get-config/filter@select(source=candidate)", path: &["get-config", "filter"], kind: Kind::Attr("select"), gen: 0, run: |s, v| {
+            unit(s.exchange::<GetConfig<Opaque>, _, _>(|b| b.filter(Some(Filter::XPath(v.to_string())))?.source(Datastore::Candidate)?.finish(), none))
+        }},
+        Slot { name: "load-configuration/configuration-text(override)", path: &["load-configuration", "configuration-text"], kind: Kind::Text, gen: 0, run: |s, v| {
+            unit(s.exchange::<LoadConfiguration<Config<String, Text, Override>>, _, _>(|b| b.source(Config::new(v.to_string(), Text, Override)).finish(), none))
+        }},
+        Slot { name: "load-configuration/configuration-text(replace)", path: &["load-configuration", "configuration-text"], kind: Kind::Text, gen: 0, run: |s, v| {
+            unit(s.exchange::<LoadConfiguration<Config<String, Text, Replace>>, _, _>(|b| b.source(Config::new(v.to_string(), Text, Replace)).finish(), none))
+        }},
+        Slot { name: "load-configuration/configuration-text(update)", path: &["load-configuration", "configuration-text"], kind: Kind::Text, gen: 0, run: |s, v| {
+            unit(s.exchange::<LoadConfiguration<Config<String, Text, Update>>, _, _>(|b| b.source(Config::new(v.to_string(), Text, Update)).finish(), none))
+        }},
+        Slot { name: "load-configuration/configuration-json(merge)", path: &["load-configuration", "configuration-json"], kind: Kind::Text, gen: 0, run: |s, v| {
+            unit(s.exchange::<LoadConfiguration<Config<String, Json, Merge>>, _, _>(|b| b.source(Config::new(v.to_string(), Json, Merge)).finish(), none))
         }},
         Slot { name: "commit/persist-id", path: &["commit", "persist-id"], kind: Kind::Text, gen: 0, run: |s, v| {
             unit(s.exchange::<Commit, _, _>(|b| b.persist_id(Some(Token::new(v)))?.finish(), none))
